@@ -428,6 +428,31 @@ def check(run: Run) -> None:
         from . import c12
         R.share(run, "C09.l", c12, ["C12.m"])
 
+    with run.obligation("C09.m", "K7", "a sub-graph that returns one of its boundary arguments unchanged forwards that argument whatever its shape: the input side "
+                        "(bind_nested_input_to_source) tells an UNBOUND peered position (is_bindable) from a NON-PEERED fixed structure (each leaf bound to its own upstream "
+                        "output) and binds the latter leaf by leaf; the ParentInput arm of single_nested_graph_bind_output must make the same distinction instead of "
+                        "treating `no bound output` as `upstream unbound` and clearing the forwarding tree (KNOWN FINDING F-C09-2 on the current tree)"):
+        NB = "include/hgraph/runtime/nested_bindings.h"
+        f_in = R.fn(run, NB, "bind_nested_input_to_source")
+        in_distinguishes = bool(R.calls(f_in, "is_bindable")) and any(R.callee_name(c) == "bind_nested_input_to_source" for c in R.calls(f_in))
+        f_out = R.fn(run, RT + "nested_graph_node.cpp", "single_nested_graph_bind_output")
+        co = R.aliases_of(f_out)
+        arms = [s0 for s0 in f_out.body.walk() if isinstance(s0, C.If) and "ParentInput" in co(s0.cond)]
+        run.sites(len(arms), 1, "ParentInput arm")
+        arm = arms[0].then
+        clears = [s1 for s1 in arm.walk() if isinstance(s1, C.If) and re.search(r"!\w+\.bound\(\)", co(s1.cond).replace(" ", "")) and R.calls(s1.then, "clear_forwarding_output_tree")]
+        leafwise = bool(R.calls(arm, "is_bindable")) or any(re.search(r"leaf|child|structur|recurs", R.callee_name(c) or "") for c in R.calls(arm)
+                                                           if R.callee_name(c) not in ("clear_forwarding_output_tree", "bind_forwarding_output_tree_to_source"))
+        run.count(1, "C09.m")
+        run.sample({"rule": "C09.m", "input_side_distinguishes_non_peered": in_distinguishes, "output_side_clears_on_no_bound_output": bool(clears), "output_side_leafwise": leafwise})
+        if not in_distinguishes:
+            raise AnalysisError("model-mismatch", "C09.m: bind_nested_input_to_source no longer distinguishes is_bindable / recurses; re-read the rule")
+        if clears and not leafwise:
+            run.finding("C09.m", "single_nested_graph_bind_output:parent-input-structural-argument-cleared", "the pass-through (ParentInput) arm resolves "
+                        "`walk_ts_path(root_input, parent_source_path).bound_output()` and clears the forwarding tree whenever that is not bound; a non-peered fixed TSL/TSB argument "
+                        "({a, b} / to_tsl(a, b)) never has a bound output of its own, so nested_<G> with `return arg;` produces no output at all while the inlined G forwards the "
+                        "argument", loc=f_out.loc(clears[0]))
+
 
 def HDRX(cn, tail):
     return "graph_header(graph_context(context),graph.data())." + tail
